@@ -151,7 +151,7 @@ def run(tier, seed):
                 'has_interaction(0,1,3)': G.has_interaction(0, 1, 3)})
     rep.assumptions = ['PYTHONHASHSEED=0', 'which re-adds are rejected between the first and the latest accepted start of a pair '
                        'is not stated by the property: either outcome is accepted there (counter undecided_transitions)']
-    return rep.finish(known, 'BFS over add_* histories with edge_removal=False, both classes (U1,U2,TWO,U3); every distinct state: '
+    return rep.finish(known, base.UNIVERSE_NOTE[4:] + ' || ' + 'BFS over add_* histories with edge_removal=False, both classes (U1,U2,TWO,U3); every distinct state: '
                              'has_interaction(u,v,t) <=> first(u,v) <= t <= max snapshot id on all ordered pairs x probe instants, '
                              'ids == instants of accepted adds, stream == one + per pair at its first appearance and no -; '
                              'every transition: outcome class per the two-sided rule; non-trivial = >= 2 calls and a pair present')
